@@ -8,6 +8,8 @@ FIELDS = ("term_amount", "term_unit", "per_unit_multiple", "per_unit")
 DIV = "core::ops::arith::Div::div"
 
 
+RATE_MUL = "<quantities::rate::Rate<TQ, PQ> as core::ops::arith::Mul<PQ>>::mul"
+
 def one(outs):
     if len(outs) == 1 and not outs[0][0] and outs[0][1] == "val":
         return T.canon(outs[0][2])
@@ -42,7 +44,7 @@ def generic_rules(ctx, config, U):
         outs2, _, _ = G.summarize(U, RPFX + "reciprocal", set(), args=[rec])
         ctx.ob("reciprocal-involution", config, one(outs2) == r, "reciprocal(reciprocal(r)) = %s" % [T.show(x[2]) for x in outs2], b["span"])
     # 3. Rate * PQ
-    path = "<quantities::rate::Rate<TQ, PQ> as core::ops::arith::Mul<PQ>>::mul"
+    path = RATE_MUL
     outs, b, ev = G.summarize(U, path, set(), args=[r, S.P(1, "rhs")])
     t = one(outs)
     Dq = S.app(DIV, S.P(1, "rhs"), S.app("Unit::as_qty", ps[3]))
@@ -73,7 +75,8 @@ def per_type(ctx, config, w):
                 continue
             imp = found[0][4]
             b = U.item_body(imp, opforms.OPFN[op])
-            ev = T.Evaluator(U, keep_tags=False)
+            # a generated operator may delegate to Rate's own `rate * q` (checked generically above): look through it
+            ev = T.Evaluator(U, keep_tags=False, inline={RATE_MUL + "!"})
             try:
                 outs = ev.summarize(b, args=[q_, r])
             except T.Unsupported as x:
@@ -94,7 +97,10 @@ def per_type(ctx, config, w):
                 probs[0][1] if probs else "", text, "; ".join("[%s] %s" % (T.show_guard(g), T.show(x)) for g, k, x in outs)), b["span"])
             # the like-quantity ratio used is Q / Q of this very type
             divs = [f for f in ev.calls_seen if f.get("trait") == "core::ops::arith::Div" and model.ty_key(f["args"][0]) == Q]
-            ctx.ob("rate-op-ratio", inst, len(divs) == 1 and model.ty_key(divs[0]["args"][1]) == Q,
+            deleg = [f for f in ev.calls_seen if (f.get("resolved") or {}).get("path") == RATE_MUL and len(f["args"]) == 2 and model.ty_key(f["args"][1]) == Q]
+            gen_divs = [f for f in ev.calls_seen if f.get("trait") == "core::ops::arith::Div" and model.ty_key(f["args"][0]) == "$PQ"]
+            ctx.ob("rate-op-ratio", inst, (len(divs) == 1 and model.ty_key(divs[0]["args"][1]) == Q and not deleg)
+                   or (not divs and len(deleg) == 1 and len(gen_divs) == 1 and model.ty_key(gen_divs[0]["args"][1]) == "$PQ"),
                    "the like-quantity ratio is not `%s / %s`" % (Q, Q), b["span"], nontrivial=False)
             forms[op] = (t if not probs else None, b, imp) if t is not None else (None, b, imp)
             n += 1
@@ -102,7 +108,7 @@ def per_type(ctx, config, w):
         if "*" in forms and "/" in forms and forms["/"][0] is not None:
             inst = "%s/%s/div-is-mul-by-reciprocal" % (config, Q)
             rec = rate_adt([ps[2], ps[3], ps[0], ps[1]])
-            ev = T.Evaluator(U, keep_tags=False)
+            ev = T.Evaluator(U, keep_tags=False, inline={RATE_MUL + "!"})
             try:
                 outs = ev.summarize(U.item_body(forms["*"][2], "mul"), args=[q_, rec])
                 tm = one(outs)
